@@ -269,7 +269,22 @@ def _prior(draw, spec, n_values, designer, min_size=0, max_size=6):
 def stream_run(draw, designers=lib.CHEAP, r2=False):
   designer = draw(_designer(designers))
   opts = draw(_opts(designer, r2))
-  spec = draw(_space(designer, need_double=r2))
+  if r2 and designer == 'grid' and draw(_mix(45)):
+    # a grid that 256 suggestions reveal completely and that has >= 1e12
+    # orderings: lets the check compare every seeded order with the
+    # documented unshuffled one (see check_seeds)
+    lo = draw(st.sampled_from([0, 1, -3]))
+    params = [{'name': 'gi', 'kind': 'INTEGER', 'lo': lo,
+               'hi': lo + draw(st.sampled_from([15, 20, 40])), 'scale': None}]
+    if draw(st.booleans()):
+      k = draw(st.integers(2, 5))
+      params.append({'name': 'gc', 'kind': 'CATEGORICAL',
+                     'values': ['a', 'b', 'c', 'dd', 'e'][:k]})
+    if draw(st.booleans()):
+      params.reverse()
+    spec = {'params': params}
+  else:
+    spec = draw(_space(designer, need_double=r2))
   metrics = draw(_metrics(designer))
   steps = draw(_steps(len(metrics), designer, min_steps=2 if r2 else 1))
   if r2:
@@ -584,7 +599,7 @@ def _r2(out, clause, item, seeds, env, first=None):
     # (the generators give >= 8 suggestions per stream by construction; a
     # first run that raises early is the only way to get here)
     out.cls('r2_not_judged_short_stream')
-    return
+    return None
   out.count('seed_streams', len(obs))
   if all(lib.first_diff(obs[0], o) is None for o in obs[1:]):
     out.violate('%s/%s' % (clause, d),
@@ -594,6 +609,7 @@ def _r2(out, clause, item, seeds, env, first=None):
                     (obs[0].get('stream') or obs[0].get('trials'))[:1]))
   else:
     out.cls('r2_judged')
+  return obs
 
 
 def check_cheap(case):
@@ -613,10 +629,38 @@ def check_seeds(case):
   nt = _stream_classes(out, run)
   if 0 in case['seeds']:
     out.cls('seed_0_among_seeds')
-  _r2(out, 'R2/seed_ignored', {'kind': 'stream', 'run': run}, case['seeds'],
-      case['env'])
+  item = {'kind': 'stream', 'run': run}
+  obs = _r2(out, 'R2/seed_ignored', item, case['seeds'], case['env'])
+  if run['designer'] == 'grid' and obs:
+    _grid_unshuffled(out, item, case, obs)
   out.nontrivial = nt and 'r2_judged' in out.classes
   return out
+
+
+def _grid_unshuffled(out, item, case, obs):
+  """GridSearchDesigner documents `shuffle_seed=None` as "uses the given
+  ordering" and any other value as "shuffle": a seeded order (seed 0
+  included) that equals the unshuffled one means the seed was treated as
+  absent.  Judged only when the 256 first suggestions reveal the whole grid
+  and the grid has >= 1e12 orderings (chance coincidence < 1e-11 per seed)."""
+  import math
+  run = item['run']
+  res = (run.get('opts') or {}).get('double_grid_resolution', 10)
+  if run.get('entry') == 'from_problem':
+    res = 10
+  axes = [lib.grid_axis_len(p, res) for p in run['space']['params']]
+  g = math.prod(axes)
+  orderings = math.prod(math.factorial(n) for n in axes)
+  if g > 256 or orderings < 1e12:
+    return
+  out.cls('grid_unshuffled_reference_judged')
+  ref = lib.execute(dict(item, run=dict(run, seed=None), env=case['env']))
+  for s, o in zip(case['seeds'], obs):
+    if lib.first_diff(ref, o) is None:
+      out.violate('R2/seed_treated_as_unshuffled/grid',
+                  'seed %r gives the unshuffled grid order (= shuffle_seed='
+                  'None): %.300r' % (s, o['stream'][0][:3]))
+      break
 
 
 def check_bench(case):
@@ -736,8 +780,9 @@ def families(tier):
       core.Family('seeds', check_seeds, strategy=seeds_strategy,
                   budget={'quick': 400, 'thorough': 8000},
                   shards={'quick': 8, 'thorough': 16},
-                  required_classes=lib.CHEAP + ('r2_judged',
-                                                'seed_0_among_seeds')),
+                  required_classes=lib.CHEAP + (
+                      'r2_judged', 'seed_0_among_seeds',
+                      'grid_unshuffled_reference_judged')),
       core.Family('bench', check_bench, strategy=bench_strategy,
                   budget={'quick': 400, 'thorough': 8000},
                   shards={'quick': 4, 'thorough': 16},
